@@ -19,7 +19,7 @@ var c13Permanent = map[string]bool{"AA": true, "GR": true}
 
 // c13Rotation rebuilds the rotation around one shipped parameter file: pre-crop, optionally one annual crop, then the target
 // crop (permanent crops: 2-4 consecutive cuts, which exercises the regrowth branch of the readers), then annual crops
-func c13Rotation(sc *Scenario, r *Rng, code, variety string) {
+func c13Rotation(sc *Scenario, r *Rng, code, variety string, annualFirst float64) {
 	pre := sc.Rotation[0]
 	sc.Rotation = []RotEntry{pre}
 	cur := sc.Start
@@ -35,7 +35,7 @@ func c13Rotation(sc *Scenario, r *Rng, code, variety string) {
 		sc.Rotation = append(sc.Rotation, RotEntry{Crop: ci.Code, Sow: sow, Harvest: harv, Rex: pickI(r, []int{0, 100, 50})})
 		cur = harv
 	}
-	if r.Bool(0.5) {
+	if r.Bool(annualFirst) {
 		addAnnual()
 	}
 	if c13Permanent[code] {
@@ -135,7 +135,7 @@ func runC13Case(tier string, seed uint64, idx int, keepDir string) *CaseResult {
 	}
 	sc := genWithProfile("C13", seed, idx, r, p)
 	if cropPair {
-		c13Rotation(sc, r, cropFile[0], cropFile[1])
+		c13Rotation(sc, r, cropFile[0], cropFile[1], 0.5)
 	}
 	sc.ResultFormat = 1
 	sc.DailyCols = pairDailyCols(sc.Soil.N())
